@@ -719,9 +719,24 @@ fn gen_frames(rng: &mut Rng, sh: &mut crate::gen_pure::Shadow, maxf: usize) -> V
         2 | 3 | 4 | 5 => {
             // HEADERS / PUSH_PROMISE with CONTINUATION
             let push = rng.chance(1, 4);
-            let block = if rng.chance(1, 25) { crate::gen_pure::gen_bad_block(rng, sh) } else { crate::gen_pure::gen_block_h2(rng, sh) };
+            let mut block = if rng.chance(1, 25) { crate::gen_pure::gen_bad_block(rng, sh) } else { crate::gen_pure::gen_block_h2(rng, sh) };
+            // a dynamic table size update AFTER a field is a decoding error wherever the block is cut — also when the cut
+            // falls exactly between the field and the update (RFC 7541 section 4.2)
+            let mut forced_cut = None;
+            if !block.is_empty() && rng.chance(1, 12) {
+                forced_cut = Some(block.len());
+                block.push(0x20 | rng.below(31) as u8);
+                if rng.chance(1, 2) {
+                    block.push(0x88);
+                }
+            }
             let nfr = if block.len() > 1 { *rng.pick(&[1usize, 1, 2, 3, 4]) } else { 1 };
             let mut cuts: Vec<usize> = (1..nfr).map(|_| 1 + rng.below(block.len() as u64 - 1) as usize).collect();
+            if let Some(c) = forced_cut {
+                if rng.chance(2, 3) {
+                    cuts.push(c);
+                }
+            }
             cuts.sort();
             cuts.dedup();
             cuts.push(block.len());
